@@ -11,6 +11,14 @@ pub mod option_i64_str {
             write!(formatter, "an integer")
         }
 
+        fn visit_unit<E: Error>(self) -> Result<Self::Value, E> {
+            Ok(None)
+        }
+
+        fn visit_none<E: Error>(self) -> Result<Self::Value, E> {
+            Ok(None)
+        }
+
         fn visit_str<E: Error>(self, value: &str) -> Result<Self::Value, E> {
             if value.is_empty() {
                 Ok(None)
@@ -27,7 +35,8 @@ pub mod option_i64_str {
     where
         D: Deserializer<'de>,
     {
-        deserializer.deserialize_str(StrVisitor)
+        // a nullable member may be sent as an explicit null
+        deserializer.deserialize_any(StrVisitor)
     }
 
     pub fn serialize<S>(value: &Option<i64>, serializer: S) -> Result<S::Ok, S::Error>
